@@ -235,6 +235,35 @@ fn run(ctx: &Ctx, rep: &Report) {
         cfg.large_files = i % 7 == 6;
         let dir = base.join(format!("c{i}"));
         if let Ok(items) = built_items(&cfg, &dir, &keys, &mut rng, i % 4 == 0) {
+            // the file-based API must agree with the in-memory one (write_file / open)
+            if i % 3 == 0 {
+                for (k, it) in items.iter().enumerate() {
+                    let path = dir.join(format!("out{k}.rpm"));
+                    let r = guard(|| -> Result<Option<String>, rpm::Error> {
+                        it.pkg.write_file(&path)?;
+                        let on_disk = std::fs::read(&path)?;
+                        if on_disk != it.bytes {
+                            return Ok(Some("write_file() produced other bytes than write()".into()));
+                        }
+                        let opened = Package::open(&path)?;
+                        if opened.metadata != it.pkg.metadata || opened.content != it.pkg.content {
+                            return Ok(Some("Package::open() of the written file differs from the package".into()));
+                        }
+                        if PackageMetadata::open(&path)? != it.pkg.metadata {
+                            return Ok(Some("PackageMetadata::open() of the written file differs from the package".into()));
+                        }
+                        Ok(None)
+                    });
+                    rep.eval(1);
+                    rep.count("file_api_roundtrips", 1);
+                    match r {
+                        Ok(Ok(None)) => {}
+                        Ok(Ok(Some(what))) => rep.violation("file-api-differs", format!("[{}] {what}", it.label), json!({"label": it.label, "cfg": it.cfg}), 0),
+                        Ok(Err(e)) => rep.violation(format!("file-api-fails:{}", crate::util::par::normalize_msg(&e.to_string())), format!("[{}] write_file/open fails: {e}", it.label), json!({"label": it.label, "cfg": it.cfg}), 0),
+                        Err(p) => rep.violation(format!("panic:file-api:{}", p.site()), p.message, json!({"label": it.label, "cfg": it.cfg}), 0),
+                    }
+                }
+            }
             let mut g = built.lock().unwrap();
             for it in items {
                 g.push((it.bytes, json!({"label": it.label, "cfg": it.cfg})));
